@@ -205,7 +205,6 @@ class AsyncPettingZooVecEnv(PettingZooVecEnv):
             )
 
         if not self._poll_pipe_envs(timeout):
-            self._state = AsyncState.DEFAULT
             raise mp.TimeoutError(
                 f"The call to `reset_wait` has timed out after {timeout} second(s)."
             )
@@ -270,7 +269,6 @@ class AsyncPettingZooVecEnv(PettingZooVecEnv):
             )
 
         if not self._poll_pipe_envs(timeout):
-            self._state = AsyncState.DEFAULT
             raise mp.TimeoutError(
                 f"The call to `step_wait` has timed out after {timeout} second(s)."
             )
@@ -366,7 +364,6 @@ class AsyncPettingZooVecEnv(PettingZooVecEnv):
             )
 
         if not self._poll_pipe_envs(timeout):
-            self._state = AsyncState.DEFAULT
             raise mp.TimeoutError(
                 f"The call to `call_wait` has timed out after {timeout} second(s)."
             )
